@@ -13,7 +13,7 @@ META = {
     "level": "model_checking",
     "engine": "E2 lazy-fork symbolic execution of the real utils.lint (with the real Circuit accessors) on an arbitrary symbolic graph (no legality pre-condition: presence, type incl. unsupported/missing, output flag, every edge incl. self-loops are z3 variables); per path z3 proves  documented-rule-violated => raises ValueError  and  raises => some documented (or documented-ambiguous) rule violated",
     "hashseeds": {"quick": [0], "thorough": [0]},
-    "shards": {"quick": 16, "thorough": 8},
+    "shards": {"quick": 16, "thorough": 16},
     "exhaustive_within_bound": True,
     "bounds": {
         "quick": "2-name universes {a,b}, {bb.i,bb.o}, {a,bb.o}, {bb.i,zz.p}, {a,zz.}, {bb.o,bbx.i}, {bb.io,a} with bb(io;io), {a,c} with a pin-less box, {bb.i,cc.j} with two same-named box types (self-loops give fan-in/fan-out counts 0,1,2 = every threshold the rules use); registry in {none, bb(i;o)}; type in 14 supported + unsupported string + missing + a non-string value; 5 flag combinations forming a pairwise covering array (every pair of flags in all four value combinations; first = defaults)",
